@@ -176,6 +176,12 @@ def check_case(case, rec):
             pass       # the first use is not judged
         spec = L.apply_edits(lens, spec, case['edits'])
     lens2 = L.build(spec)      # traced by the oracle
+    # the surface records of the analysed lens hold an unrelated single-ray trace when the analysis starts (what was
+    # traced before must not matter)
+    try:
+        lens.trace_generic(0.0, 0.37, 0.21, -0.45, float(spec['wavelengths'][case['wli']][0]))
+    except Exception:
+        pass
     wl = float(spec['wavelengths'][case['wli']][0])
     kind = case['kind']
     fmax = max(abs(f[0]) for f in spec['fields'])
